@@ -575,6 +575,15 @@ theorem applyAct_okErr_cloneField (k : Nat) (hf : ∀ o ∈ fh, (s.cell o).isSom
     exact okErr_of_err_eq (s := s.incStrong o) rfl
       (okErr_incStrong (okErr_of_none h.err) (hf o (mem_of_nthMod hr)))
 
+theorem applyAct_okErr_downgradeField (k : Nat) (hf : ∀ o ∈ fh, (s.cell o).isSome = true) :
+    (applyAct s fh fw (.downgradeField k)).okErr := by
+  simp only [applyAct]
+  cases hr : nthMod fh k with
+  | none => exact okErr_of_none h.err
+  | some o =>
+    exact okErr_of_err_eq (s := s.incWeak o) rfl
+      (okErr_incWeak (okErr_of_none h.err) (hf o (mem_of_nthMod hr)))
+
 end acts
 
 /-- **no action reports a library error or uses a dangling handle** (it may abort); `fh`/`fw` are
@@ -614,6 +623,7 @@ theorem applyAct_okErr (s : State) (fh fw : List Nat) (a : Act) (hI : s.Inv) (hR
   | setShallow q => exact okErr_of_none (applyAct_noerr_setShallow h fh fw q)
   | upgradeField k => exact okErr_of_none (applyAct_noerr_upgradeField h fh fw k hw)
   | cloneField k => exact applyAct_okErr_cloneField h fh fw k hf
+  | downgradeField k => exact applyAct_okErr_downgradeField h fh fw k hf
 
 /-- a top-level operation never reports a library error or uses a dangling handle -/
 theorem applyOp_okErr (s : State) (op : Op) (hI : s.Inv) (hR : s.InvR) (hS : s.InvS)
